@@ -74,7 +74,9 @@ Nodes == Cardinality(st.fs.dirs) + Cardinality(st.fs.files)
 Bound == ~Dynamic \/ (Nodes <= MaxNodes /\ Nodes >= MaxNodes - 3)
 
 \* the property
-TouchedInside == TouchedOK(last.touched)
+\* (a predicate on the history variable `last` must be an ACTION property: with a VIEW, TLC evaluates state invariants
+\*  only on states whose view is new, but implied actions on every generated transition)
+TouchedInside == [][TouchedOK(last'.touched)]_vars
 CwdInside == CwdInsideSt(st)
 OutsideSame == OutsideOf(st.fs) = OutsideOf(InitFs)
 \* sanity of the model: a failed statement changes nothing; the current directory always is a list of plain names
